@@ -33,9 +33,14 @@ def key_fragid(repo, tier="quick"):
     outer = loops[-1]
     it = strip_wrappers(fl.canon(outer.ast.iter, outer.id))
     meta = ("attr", SELF, "meta_graph")
-    need(it in (("attr", meta, "nodes"), meta) or (method_call(it, "nodes") and method_call(it, "nodes")[0] == meta),
+    need(it in (("attr", meta, "nodes"), meta) or (method_call(it, "nodes") and method_call(it, "nodes")[0] == meta) or
+         (method_call(it, "items") and method_call(it, "items")[0] == ("attr", meta, "nodes")),
          "the outer loop does not range over self.meta_graph.nodes", fi, outer.ast)
     coarse = ("iter", (outer.ast.lineno, outer.ast.col_offset), fl.canon(outer.ast.iter, outer.id))
+    mn_ = method_call(it, "nodes")
+    if (mn_ and (mn_[2] or mn_[3])) or method_call(it, "items"):
+        # for node, attrs in meta_graph.nodes(data=True) / .nodes.items(): the key is the first component
+        coarse = ("sub", coarse, ("const", 0))
     tmpl = M[3][1] if len(M[3]) > 1 else dict(M[4]).get("target_graph")
     molecule = M[3][0] if M[3] else None
 
@@ -206,7 +211,45 @@ def prov_annotate_lookup(repo, tier="quick"):
         m = method_call(ct, "add_edge")
         if m and m[0] in recvs and len(m[2]) >= 2:
             edge_sites.append((call, nid, m))
-    if not edge_sites:
+    # the same as one call: graph_frag.add_edges_from(pair for pair in combinations(members, 2) if molecule.has_edge(*pair))
+    bulk_sites = 0
+    for call, nid in fl.calls():
+        ct = fl.canon(call, nid)
+        m = method_call(ct, "add_edges_from")
+        if not (m and m[0] in recvs and len(m[2]) == 1):
+            continue
+        bulk_sites += 1
+        comp = m[2][0]
+        verdict = None
+        if comp[0] == "comp" and len(comp[4]) == 1:
+            elem, conds = comp[4][0][1], comp[4][0][2]
+            pair = comp[3]
+            same = pair == elem or (pair[0] == "tuple" and pair[1] == (("sub", elem, ("const", 0)), ("sub", elem, ("const", 1))))
+            comb = is_call(elem[2], "itertools.combinations") if elem[0] == "iter" else None
+            src_ok = False
+            if comb and comb[0]:
+                src = as_lookup(strip_wrappers(comb[0][0]))
+                r = comb[0][1] if len(comb[0]) > 1 else dict(elem[2][4]).get("r")
+                if src[0] == "sub" and src[1] == index and r == ("const", 2):
+                    mk = elem_of(src[2])
+                    src_ok = bool(mk and strip_wrappers(mk[1]) in (("attr", meta, "nodes"), meta))
+            bonded = False
+            for cnd in conds:
+                hm = method_call(cnd, "has_edge")
+                if hm and hm[0] == mol and (hm[2] == (("star", elem),) or hm[2] == (("sub", elem, ("const", 0)), ("sub", elem, ("const", 1)))):
+                    bonded = True
+            if same and src_ok:
+                verdict = bonded and len(conds) == 1
+        if verdict is None:
+            obs.append(ob_undecided(oid, fi, call, construct="add_edges_from(%s)" % show(comp)[:80], instance="bonds",
+                                    reason="the edges are added in one call from a collection the rule cannot read"))
+        elif verdict:
+            obs.append(ob_ok(oid, fi, call, construct="graph_frag.add_edges_from(pairs of index[meta_node] that are bonded in the molecule)", instance="bonds",
+                             reason="the per-node graph is the subgraph of the fine graph induced by the node's atoms"))
+        else:
+            obs.append(ob_fail(oid, fi, call, construct="add_edges_from(...) not filtered by molecule.has_edge", instance="bonds",
+                               reason="the per-node graph gets edges between atoms that are not bonded in the fine graph (or misses the bonded ones)"))
+    if not edge_sites and not bulk_sites:
         obs.append(ob_fail(oid, fi, construct="no add_edge on the per-node graph", instance="bonds",
                            reason="the graph stored on a coarse node has the fragment's atoms but none of its bonds"))
     for call, nid, m in edge_sites:
@@ -304,6 +347,9 @@ def _classify_key(fl, k, graph):
         coll = strip_wrappers(coll)
         if role in ("elem", "key"):
             if coll in (("attr", graph, "nodes"), graph):
+                return "node"
+            # the keys of a dict built over the nodes: {node: ... for ... node ... in <nodes>}
+            if coll[0] == "comp" and coll[1] == "dict" and len(coll[4]) == 1 and not coll[4][0][2] and _classify_key(fl, coll[3][1][0], graph) == "node":
                 return "node"
             m = method_call(coll, "nodes")
             if m and m[0] == graph:
@@ -404,6 +450,24 @@ def key_rdkit(repo, tier="quick"):
                 (isinstance(g.target, ast.Tuple) and g.target.elts and isinstance(g.target.elts[0], ast.Name) and isinstance(dc.key, ast.Name) and dc.key.id == g.target.elts[0].id)
             if is_add and over_nodes and key_is_node:
                 maps.add(n.ast.targets[0].id)
+            # ... or precomputed as positions, {node: i for i, node in enumerate(graph.nodes)}: right exactly when the atoms are
+            # added one per node in that same order (AddAtom returns the number of atoms added before)
+            en = is_call(it, "enumerate")
+            if en and en[0] and len(en[0]) == 1 and not en[1] and strip_wrappers(en[0][0]) in (("attr", graph, "nodes"), graph) and \
+                    isinstance(g.target, ast.Tuple) and len(g.target.elts) == 2 and all(isinstance(x, ast.Name) for x in g.target.elts) and \
+                    isinstance(dc.key, ast.Name) and dc.key.id == g.target.elts[1].id and isinstance(dc.value, ast.Name) and dc.value.id == g.target.elts[0].id:
+                name_ = n.ast.targets[0].id
+                adds_ = [(c, cn) for c, cn in fl.calls() if isinstance(c.func, ast.Attribute) and c.func.attr == "AddAtom"]
+                in_order = False
+                if len(adds_) == 1:
+                    lps_ = enclosing_loops(fi, adds_[0][1])
+                    if len(lps_) == 1 and lps_[0].kind == "for" and not [gd for gd in guards_of(fi, adds_[0][1]) if gd[2] != lps_[0].id]:
+                        lit = strip_wrappers(fl.canon(lps_[0].ast.iter, lps_[0].id))
+                        mm2 = method_call(lit, "nodes")
+                        same_dict = isinstance(lps_[0].ast.iter, ast.Name) and lps_[0].ast.iter.id == name_
+                        in_order = same_dict or lit in (("attr", graph, "nodes"), graph) or (mm2 is not None and mm2[0] == graph)
+                if in_order:
+                    maps.add(name_)
     for call, nid in fl.calls():
         if isinstance(call.func, ast.Attribute) and call.func.attr == "AddBond":
             n_sites += 1
@@ -459,6 +523,15 @@ def key_rdkit(repo, tier="quick"):
             inner = c[0][0] if c and it[2][0] == "builtin" else it
             mm = method_call(inner, "nodes")
             plain = inner in (("attr", g, "nodes"), g) or (mm is not None and mm[0] == g)
+            if not plain and inner[0] == "comp" and inner[1] == "dict" and len(inner[4]) == 1 and not inner[4][0][2]:
+                # a dict filled in graph order iterates in graph order: {node: ... for ... in [enumerate(]graph.nodes[)]}
+                src = strip_wrappers(inner[4][0][1][2]) if inner[4][0][1][0] == "iter" else None
+                en_ = is_call(src, "enumerate") if src is not None else None
+                if en_ and en_[0]:
+                    src = strip_wrappers(en_[0][0])
+                m3 = method_call(src, "nodes") if src is not None else None
+                from_nodes = src in (("attr", g, "nodes"), g) or (m3 is not None and m3[0] == g)
+                plain = bool(from_nodes and _classify_key(wfl, inner[3][1][0], g) == "node")
             n_sites += 1
             (obs.append(ob_ok(oid, fw, nd.ast, construct="atoms are added in the iteration order of graph.nodes", instance="atom-order",
                               reason="RDKit atom i is the i-th node of the graph, which is what embed_3d_via_rdkit relies on when writing positions back")) if plain else
@@ -657,6 +730,18 @@ def norm_scale(repo, tier="quick"):
                 scale = (n, st.targets[0].value.id, fl.canon(r, n.id), st.targets[0])
             elif ast.unparse(r) == tsrc:
                 scale = (n, st.targets[0].value.id, fl.canon(l, n.id), st.targets[0])
+    values_loop = None
+    if scale is None:
+        # for p in pos.values(): p *= F   (the positions are arrays: the in-place product changes the dict's own values)
+        for n in cfg.nodes:
+            st = n.ast
+            if n.kind == "stmt" and isinstance(st, ast.AugAssign) and isinstance(st.op, ast.Mult) and isinstance(st.target, ast.Name):
+                e = elem_of(fl.canon(ast.Name(id=st.target.id, ctx=ast.Load()), n.id))
+                lps = enclosing_loops(fi, n.id)
+                if e and e[0] == "value" and lps and lps[0].kind == "for" and isinstance(lps[0].ast.iter, ast.Call) and \
+                        isinstance(lps[0].ast.iter.func, ast.Attribute) and isinstance(lps[0].ast.iter.func.value, ast.Name):
+                    scale = (n, lps[0].ast.iter.func.value.id, fl.canon(st.value, n.id), None)
+                    values_loop = lps[0]
     if scale is None:
         # a whole-array rescaling `A *= F`: it reaches the returned dict only through rows that were handed out as views
         # (`pos[node] = A[idx]`) after the last binding of A, on every path
@@ -692,7 +777,12 @@ def norm_scale(repo, tier="quick"):
     sn, posname, F, tgt = scale
     loops = enclosing_loops(fi, sn.id)
     ok_all = False
-    if loops and loops[0].kind == "for":
+    if values_loop is not None:
+        # every value of the dict is visited; the dict must be the one that is returned
+        rets = [n for n in cfg.nodes if n.kind == "stmt" and isinstance(n.ast, ast.Return)]
+        ok_all = bool(rets) and all(isinstance(r.ast.value, ast.Name) and r.ast.value.id == posname for r in rets) and \
+            not [g for g in guards_of(fi, sn.id) if g[2] != values_loop.id]
+    elif loops and loops[0].kind == "for":
         it = loops[0].ast.iter
         k = fl.canon(tgt.slice, sn.id)
         e = elem_of(k)
@@ -892,6 +982,27 @@ def _positional_array(t, depth=0, fl=None):
     return False
 
 
+def _node_keyed_positions(fl, base, depth=0):
+    """the position dict keyed by node: the result of a networkx layout / of the cis-trans correction, a dict built over its
+    keys (dict(zip(pos, rows))), or a name that holds one of these on every path"""
+    if not isinstance(base, tuple) or not base:
+        return False
+    if base[0] == "call" and ((base[2][0] == "ext" and base[2][1].startswith("networkx.") and base[2][1].endswith("_layout")) or
+                              (base[2][0] == "fn" and base[2][1].endswith(":check_and_fix_cis_trans"))):
+        return True
+    if depth > 2:
+        return False
+    dc = is_call(base, "dict")
+    if dc and base[2] == ("builtin", "dict") and len(dc[0]) == 1:
+        zc = is_call(dc[0][0], "zip")
+        if zc and zc[0] and _node_keyed_positions(fl, zc[0][0], depth + 1):
+            return True
+    if base[0] in ("var", "ifexp"):
+        alts = fl.alternatives(base)
+        return bool(alts) and all(_node_keyed_positions(fl, a, depth + 1) for a in alts)
+    return False
+
+
 def key_layout(repo, tier="quick"):
     """C19 (independence from the node labels, one position per node): inside vespr_layout a position *array*
     (rows in enumeration order of the position dict) is subscripted by enumeration counters only, and the node-keyed
@@ -936,8 +1047,7 @@ def key_layout(repo, tier="quick"):
             else:
                 obs.append(ob_ok(oid, fi, sub, construct="%s" % ast.unparse(sub), instance="array-by-" + (sp or "other"),
                                  reason="the position array is not indexed with node keys"))
-        elif base[0] == "call" and ((base[2][0] == "ext" and base[2][1].startswith("networkx.") and base[2][1].endswith("_layout")) or
-                                    (base[2][0] == "fn" and base[2][1].endswith(":check_and_fix_cis_trans"))):
+        elif _node_keyed_positions(fl, base):
             sp = _layout_space(k, graph)
             if sp == "index":
                 obs.append(ob_fail(oid, fi, sub, construct="%s  (node-keyed positions, subscript is a counter)" % ast.unparse(sub), instance="dict-by-counter",
